@@ -17,6 +17,7 @@ instantiated with the executable MD5 of `Qx.Crypto.Md5` (cross-checked against h
   deliver | drop | dup | swap | flip <bit> | eclose | wsid | wsender [<which other JID>]
   inj <sender> <sid> (open <bs> | data <seq> <hex|-> | rawdata <seq> <hex of element text> | close)
   lose | rinj <origin> <back> ok|<condition> | pclose | timeout (the inactivity timers of the jobs in TransferState fire)
+  pathrun <bs> <hex of the previous file content|-> <content>   → R <state> <error> <len> <digest> of the FILE ON DISK after the honest transfer
   ssend <scenario>   → final error of the SOCKS5 sending job (`ssendOutcome`)
       → <replies>|R <state> <error> <len> <digest> d<job's byte counter> f<finished signals> e<error signals>
           (len / digest: what the DEVICE holds)
@@ -183,6 +184,15 @@ def stepLine (d : D) (line : String) : D × String :=
       | "proxy-activation-refused" => some (ssendOutcome .proxyRefused 1 1)
       | _ => none
     (d, match o with | some e => showErr e | none => "bad-op")
+  -- accept(filePath) into a path that already holds <previous>: the whole honest transfer, then what is on disk
+  | ["pathrun", bs, prev, content] =>
+    match bs.toNat?, hexOrDash prev, parseContent content with
+    | some bs, some prev, some data =>
+      let st0 := initPath acceptOpenMode prev bs bs data.length (some (H data)) data
+      let x := runLoop (data.length + 4) st0 0 0
+      let r := x.1.r
+      (d, s!"R {showState r.state} {showErr r.error} {r.disk.length} {digest r.disk}")
+    | _, _, _ => (d, "bad-op")
   | ["lose"] => apply d .lose
   | ["timeout"] => apply d .timeout
   -- a response IQ reaches the sending client: rinj <origin: 0 = the peer> <back: 0 = id of its last request> ok|<condition>
